@@ -85,7 +85,8 @@ CLAIMS = {
         "loop heads have a single state; plus the Guard protocol of write_uninit_slice_cloned (GUARD1), read-only-ness "
         "of comparison/hash/fmt impls (RO1), the closed table of forget/ManuallyDrop sites (LEAK1), and that elements taken "
         "out of the buffer's custody by a shrinking store are handed to drop_range or a Drain before any user code runs "
-        "(SHRINK1). Independent of "
+        "(SHRINK1); and that a closure handed to code outside the crate (an iterator adapter chain, for_each) keeps the "
+        "typestate balanced across invocations whenever its driver runs user code between them (OCC iv). Independent of "
         "N, layout, argument length and of which invocation panics. GUARD1 also requires Guard::drop to reach its drop_in_place on every path (no early return keyed on the element type).",
         note="Unwind edges whose only source is an implicit bounds / zero-divisor check are treated as infeasible "
         "(INV + MOD1); external callees are classified by resolved where-clauses and a reviewed structural-impl table; "
